@@ -155,3 +155,15 @@ Proof. vm_compute. reflexivity. Qed.
 Example ex_m_calls : map (fun c => match c with CStartPath _ _ _ => 1 | CDraw op _ => op | _ => 0 end)
                          (mpath_calls 0 (of_Z F32 24) 0 0 (of_Z F32 48) ex_mpath) = [1; 108; 108; opY; 104].
 Proof. vm_compute. reflexivity. Qed.
+
+(* ---- tie to the source: generate.Translate and generate.MulAff3, translated from /repo's working tree by
+   harness/gosrc.go on every run (gen/GoSrc.v), are the float32 instances of the model's definitions. ---- *)
+From IVG Require Import GoSem GoSrc GenEqGeom.
+
+Theorem code_Translate : forall x y, go_generate_Translate x y = Generator.translate x y.
+Proof. exact GenEqGeom.go_Translate_eq. Qed.
+Print Assumptions code_Translate.
+
+Theorem code_MulAff3 : forall x y a, go_generate_MulAff3 x y a = Generator.mul_aff3 x y a.
+Proof. exact GenEqGeom.go_MulAff3_eq. Qed.
+Print Assumptions code_MulAff3.
